@@ -25,7 +25,7 @@ INFO = {
     'engine': 'symx + z3',
     'explanation': 'p re-scaled on the instance; item index per step concretised by solver decisions, hash values stay symbolic (register index/rank are z3 terms, registers If-merged); '
                    'len() forks on which registers are empty.',
-    'bounds': {t: [f'p={p} (capacity {(1 << p) // 2}), {s} insertions over {k} items' for p, s, k in v] + [f'pipeline feed: {FEED_ROWS_[t]} rows over 5 values (one empty), 1..3 consecutive mini-batches, real class re-scaled to capacity 4, real xxhash'] for t, v in BOUNDS.items()},
+    'bounds': {t: [f'p={p} (capacity {(1 << p) // 2}), {s} insertions over {k} items' for p, s, k in v] + ['exact range: 4 insertions over 7 values that differ in type (str/bytes/int) or in a lone surrogate, real class at capacity 4'] + [f'pipeline feed: {FEED_ROWS_[t]} rows over 5 values (one empty), 1..3 consecutive mini-batches, real class re-scaled to capacity 4, real xxhash'] for t, v in BOUNDS.items()},
     'outside': ['"within 2% up to 2^21 distinct values" (statistical)', 'the real constants p=19, capacity 2^18 (recorded and asserted, then re-scaled)', '32-bit hash collisions between distinct items are allowed (hash values unconstrained)'],
     'assumptions': ['xxhash.xxh32(seed).update(bytes).intdigest() is a function of the bytes', 'numpy zeros/where/log/divide/ceil on the register array follow numpy semantics'],
     'job_timeout': {'quick': 240, 'thorough': 1500},
@@ -123,6 +123,8 @@ def load_hll():
 def jobs(tier):
     out = []
     import pandas  # noqa
+    for v0 in range(len(KEY_POOL)):
+        out.append({'cond': 'keys', 'pins': {'v0': v0}, 'weight': 5, 'label': f'exact range, values that differ in type or in one odd character, first {KEY_POOL[v0]!r}'})
     for c0 in range(len(FEED_POOL)):
         for c1 in range(len(FEED_POOL)):
             out.append({'cond': 'feed', 'tier': tier, 'pins': {'c0': c0, 'c1': c1}, 'weight': 30, 'label': f'pipeline feed, first cells {FEED_POOL[c0]!r},{FEED_POOL[c1]!r}'})
@@ -206,6 +208,50 @@ def feed_problem(vals, cuts, P=3):
     return None
 
 
+KEY_POOL = ['caf\udce9', 'caf\udce8', 'a', b'a', 'A', 1, '1']      # distinct values: strings that differ in a lone surrogate, text vs its bytes, int vs its text
+KEY_STEPS = 4
+
+
+def keys_problem(vals, P=3):
+    """real class re-scaled to capacity 4: while the number of distinct values stays within it, len() is exactly that number"""
+    loader.use_repo_on_syspath()
+    from outrank.algorithms.sketches.counting_ultiloglog import HyperLogLogWCache as HLL
+    o, _ = scaled(HLL, P)
+    seen = []
+    for k, v in enumerate(vals):
+        o.add(v)
+        if not any(type(v) is type(u) and v == u for u in seen):
+            seen.append(v)
+        if len(seen) <= o.warmup_size and len(o) != len(seen):
+            return f'after adding {vals[:k + 1]!r} the sketch (capacity {o.warmup_size}) reports {len(o)} distinct values, there are {len(seen)}'
+    return None
+
+
+def run_keys(job):
+    st = {}
+
+    def setup(ctx):
+        st['v'] = [z3.Int(f'v{i}') for i in range(KEY_STEPS)]
+        for v in st['v']:
+            ctx.assume(v >= 0, v < len(KEY_POOL))
+        for k, v in job['pins'].items():
+            ctx.assume(z3.Int(k) == v)
+
+    def body(ctx, out):
+        idx = [int(SInt(v, 0, len(KEY_POOL) - 1)) for v in st['v']]
+        w = {'cond': 'keys', 'idx': idx}
+        try:
+            p = keys_problem([KEY_POOL[i] for i in idx])
+        except Exception as e:
+            p = f'{type(e).__name__}: {e}'
+        if p or out.twin:
+            out.concrete_fail(w, p or 'twin')
+        else:
+            out.concrete_ok()
+        out.sample({'values': [repr(KEY_POOL[i]) for i in idx]})
+    return hutil.run_symx(job, setup, body)
+
+
 def run_feed(job):
     R = FEED_ROWS[job.get('tier', 'quick')]
     comps = feed_compositions(R)
@@ -241,6 +287,8 @@ def run_feed(job):
 def run_job(job):
     if job['cond'] == 'feed':
         return run_feed(job)
+    if job['cond'] == 'keys':
+        return run_keys(job)
     P, S, NI = job['p'], job['s'], job['k']
     HLL = load_hll()
     ITEMS = [f'it{i}' for i in range(NI)]
@@ -317,6 +365,14 @@ def _real_collisions(seed, k):
 
 
 def replay(w):
+    if w.get('cond') == 'keys':
+        try:
+            p = keys_problem([KEY_POOL[i] for i in w['idx']])
+        except Exception as e:
+            p = f'{type(e).__name__}: {e}'
+        if p:
+            return {'reproduced': True, 'signature': 'C14:exact-keys', 'what': p}
+        return {'reproduced': False, 'what': 'exact for these values'}
     if w.get('cond') == 'feed':
         try:
             p = feed_problem(w['vals'], w['cuts'])
